@@ -38,6 +38,8 @@ CONSTANTS Callers,      \* set of caller ids (positive integers)
 TICKER == 100
 STOPPER == 200
 
+Fixed == Variant \in {"fixed", "noguard"}   \* makeDeadline as repaired
+
 VARIABLES now, current, clockEnd, started, start, running, mu, nClocks,
           tpc, twake,               \* clock goroutine: program counter, wake-up time
           cpc, cend, cce, ct0, ccalls, cfired,   \* per caller: pc, deadline, clockEnd as read, call time, calls made, timed-out flag
@@ -54,7 +56,7 @@ Init == /\ now = 0 /\ current = 0 /\ clockEnd = 0 /\ started = FALSE /\ start = 
 
 \* ---------------------------------------------------------------- callers
 Begin(c) == /\ cpc[c] = "idle" /\ ccalls[c] < MaxCalls
-            /\ cpc' = [cpc EXCEPT ![c] = IF Variant = "fixed" THEN "m0" ELSE "m1"] /\ ccalls' = [ccalls EXCEPT ![c] = @ + 1]
+            /\ cpc' = [cpc EXCEPT ![c] = IF Fixed THEN "m0" ELSE "m1"] /\ ccalls' = [ccalls EXCEPT ![c] = @ + 1]
             /\ ct0' = [ct0 EXCEPT ![c] = now] /\ cfired' = [cfired EXCEPT ![c] = FALSE]
             /\ UNCHANGED <<now, current, clockEnd, started, start, running, mu, nClocks, tpc, twake, cend, cce, spc, swake>>
 
@@ -70,7 +72,7 @@ M1(c) == /\ cpc[c] = "m1"
          /\ UNCHANGED <<now, current, clockEnd, started, start, running, mu, nClocks, tpc, twake, cce, ct0, ccalls, cfired, spc, swake>>
 
 M2(c) == /\ cpc[c] = "m2"
-         /\ cpc' = [cpc EXCEPT ![c] = IF cend[c] > (IF Variant = "fixed" THEN cce[c] ELSE clockEnd) THEN "m3" ELSE "wait"]
+         /\ cpc' = [cpc EXCEPT ![c] = IF cend[c] > (IF Fixed THEN cce[c] ELSE clockEnd) THEN "m3" ELSE "wait"]
          /\ UNCHANGED <<now, current, clockEnd, started, start, running, mu, nClocks, tpc, twake, cend, cce, ct0, ccalls, cfired, spc, swake>>
 
 Lock(c, from, to) == /\ cpc[c] = from /\ mu = 0 /\ mu' = c /\ cpc' = [cpc EXCEPT ![c] = to]
@@ -82,7 +84,7 @@ M3(c) == /\ Lock(c, "m3", "m4")
 M4(c) == /\ cpc[c] = "m4"
          /\ IF ~running /\ started
             THEN current' = Elapsed /\ cend' = [cend EXCEPT ![c] = Elapsed + Timeouts[c] + P]
-            ELSE IF Variant = "fixed"
+            ELSE IF Fixed
                  THEN cend' = [cend EXCEPT ![c] = current + Timeouts[c] + P] /\ UNCHANGED current
                  ELSE UNCHANGED <<current, cend>>
          /\ cpc' = [cpc EXCEPT ![c] = "m5"]
@@ -96,11 +98,12 @@ E1(c) == /\ Lock(c, "e1", "e2")
 
 E2(c) == /\ cpc[c] = "e2"
          /\ IF ~started THEN started' = TRUE /\ start' = now ELSE UNCHANGED <<started, start>>
-         /\ clockEnd' = IF cend[c] + S > clockEnd THEN cend[c] + S ELSE clockEnd
+         \* clockEnd never moves backwards ("noguard": the variant without that test, kept to show what it is needed for)
+         /\ clockEnd' = IF Variant = "noguard" \/ cend[c] + S > clockEnd THEN cend[c] + S ELSE clockEnd
          /\ IF ~running
             THEN /\ running' = TRUE /\ nClocks' = nClocks + 1 /\ tpc' = "t0"     \* go runClock()
                  \* fixed variant: a clock that is (re)started is first set to the current time
-                 /\ current' = IF Variant = "fixed" THEN (IF started THEN Elapsed ELSE 0) ELSE current
+                 /\ current' = IF Fixed THEN (IF started THEN Elapsed ELSE 0) ELSE current
             ELSE UNCHANGED <<running, nClocks, tpc, current>>
          /\ cpc' = [cpc EXCEPT ![c] = "e3"]
          /\ UNCHANGED <<now, mu, twake, cend, cce, ct0, ccalls, cfired, spc, swake>>
